@@ -47,6 +47,7 @@ impl Prop for P {
             rule: "plaintext recipe x (constructor, level, strategy, format, window bits) x call schedule x driver {buffer, callback, stream::deflate}; the emitted bytes are parsed by the reference inflater into a token trace which is checked against the requested mode (level 0 => stored only; Fixed => no dynamic block; HuffmanOnly => no match; RLE => distance 1 only; Filtered => no match < 5; lengths 3..258, distances 1..32768, one final block, nothing after it), plus the metamorphic relation |C(X||X)| <= 0.8 |X||X| for random X and |C(run)| <= n/8 under RLE. Non-trivial = the trace contains a match, or the strategy forbids matches the default strategy would have used (input has repetition); distinct by case fingerprint",
             assumptions: &["reference inflater implements RFC 1951/1950 (self-checked)", "for with_params and window_bits < 15 the 'requested mode' is the documented remapping (w < 12 => run-length mode unless level 0 / HuffmanOnly; w 12..14 => level capped at 1)"],
             dbg: false,
+            simd: false,
             exhaustive: None,
         }
     }
